@@ -3161,7 +3161,7 @@ class Group(System):
                     io = 'input' if wrt in abs2meta['input'] else 'output'
                     meta = conn_graph.nodes[(io[0], wrt)]['attrs']
                     if total and approx_meta['indices'] is not None:
-                        sub_wrt_idx = approx_meta['indices'].as_array()
+                        sub_wrt_idx = approx_meta['indices'].shaped_array()
                         size = sub_wrt_idx.size
                     else:
                         sub_wrt_idx = _full_slice
